@@ -132,6 +132,7 @@ func (u *Unit) execFor(s *ast.ForStmt, st *State) []Outcome {
 	var outs []Outcome
 	// body path
 	bst := st.clone()
+	u.resetReachedIn(s.Body, bst, st)
 	bst.assume(cond)
 	if ls != nil && ls.Decreases != nil {
 		variant0 = u.evalClauseInt(ls.Decreases, bst, u.localBindings(ls.Decreases, bst, bind))
@@ -290,6 +291,7 @@ func (u *Unit) execRangeSlice(s *ast.RangeStmt, st *State) []Outcome {
 	var outs []Outcome
 	// body
 	bst := st.clone()
+	u.resetReachedIn(s.Body, bst, st)
 	bst.assume("(< " + idx.T + " " + length + ")")
 	if kv != nil {
 		bst.env[kv] = idx
@@ -419,6 +421,7 @@ func (u *Unit) execRangeMap(s *ast.RangeStmt, st *State, mt *types.Map) []Outcom
 	}
 	var outs []Outcome
 	bst := st.clone()
+	u.resetReachedIn(s.Body, bst, st)
 	key := Val{T: u.reg.fresh("key", ks), S: ks, GT: mt.Key()}
 	bst.assume("(select " + dom0 + " " + key.T + ")")
 	bst.assume(not("(select " + seen.T + " " + key.T + ")"))
